@@ -16,8 +16,11 @@ mixed process_input(string s) {
   L("pi " + idx + " " + s);
   if (s == "m") return 0;                 // let the verb run: it issues three commands through command()
   if (s == "q") { L("gone " + idx); destruct(this_object()); }
+  if (s == "i") input_to("it", PLAN->query_fl());   // the next buffered line goes to it(); the flags word is the mudlib's
+  if (s == "g") get_char("it", PLAN->query_fl());
   return 1;
 }
+void it(string s) { L("it " + idx + " " + s); }
 int do_m(string a) { command("s1"); command("s2"); if (PLAN->query_st() != 2) command("s3"); return 1; }
 int do_s(string a) { L("sub " + idx + " " + query_verb()); return 1; }
 void gc(string c) { L("gc " + idx + " " + c); get_char("gc"); }
